@@ -918,6 +918,21 @@ def make_cases(ctx):
                 break
         if node is not None:
             add("union", node, params, prows, N=NBIG, n_small=rng.choice([2, 7, 40]))
+    # 4c. disjoint unions whose first operand is a cut / intersection with its exact measure set by set_volume: must be uniform
+    for _ in range(ctx.scale(3, 30)):
+        for _try in range(60):
+            g0 = Gen(rng, params=[])
+            p_, q_, r_ = g0.prim2("x"), g0.prim2("x"), g0.prim2("x")
+            op = rng.choice(["cut", "inter"])
+            P_, Q_ = shp(p_, {}), shp(q_, {})
+            ov = P_.intersection(Q_).area
+            if not (0.2 * P_.area <= ov <= 0.8 * P_.area):
+                continue
+            far = [dy(rng, 8, 10) * rng.choice([1, -1]) for _ in range(2)]
+            cand = Node("union", None, [], [Node(op, None, [], [p_, q_]), Node("translate", "x", [PF([geomgen.c(x) for x in far])], [r_])],
+                        flags=dict(disjoint=True) if rng.random() < 0.5 else None)
+            add("union", cand, [], [], N=NBIG, n_small=rng.choice([2, 7, 40]), setvol_operands=True)
+            break
     # 5. products: independent and dependent (volume-weighted acceptance); first factors: bare primitives and
     #    translated / rotated / Boolean combinations of shapes that depend on the second factor's variable
     WRAPS = [None, "translate-const", "rotate", "annulus", "union", "translate-dep"]
@@ -944,7 +959,7 @@ def make_cases(ctx):
         else:
             lo = geomgen.c(dy(rng, -1, 1))
             a = Node("interval", "y", [PF([lo]), PF([("+", lo, grow)])])
-        add("prod1", Node("prod", None, [], [a, b]), [], [], calls=ctx.scale(2500, 6000))
+        add("prod1", Node("prod", None, [], [a, b]), [], [], calls=ctx.scale(1500, 6000))
     # 6. LHS designs in boxes
     for _ in range(ctx.scale(80, 800)):
         params, prows = pr()
@@ -1007,6 +1022,27 @@ def make_cases(ctx):
         order = [w for w in order if w == "parent" or w < len(tv)]
         add("evalhist", node, ["D"], rowsD, tvals=[str(v) for v in tv], order=order, N=ctx.scale(30000, 80000), n_small=rng.choice([2, 5]),
             api=rng.choice(["dom.n", "smp.n"]))
+    # 8c. boundaries of Boolean combinations: feature crossing (operation x overlap/disjoint/contained x set_volume x n/density x translation)
+    for i in range(ctx.scale(12, 120)):
+        for _try in range(60):
+            g0 = Gen(rng, params=[])
+            a_, b_ = g0.prim2("x"), g0.prim2("x")
+            op = rng.choice(["union", "cut", "inter"])
+            A_, B_ = shp(a_, {}), shp(b_, {})
+            ov = A_.intersection(B_).area
+            if not (0.15 * min(A_.area, B_.area) <= ov <= 0.85 * min(A_.area, B_.area)):
+                continue
+            res_ = shp(Node(op, None, [], [a_, b_]), {})
+            if res_.area < 0.1 * A_.area or res_.geom_type != "Polygon":
+                continue
+            node = Node(op, None, [], [a_, b_])
+            if rng.random() < 0.3:
+                node = Node("translate", "x", [PF([geomgen.c(dy(rng, -2, 2)), geomgen.c(dy(rng, -2, 2))])], [node])
+            api = rng.choice(["dom.n", "smp.n", "dom.d"])
+            add("boolbdry", node, [], [], N=ctx.scale(60000, 120000), api=api, set_volume=(api != "dom.d"))
+            if i < ctx.scale(2, 10):      # the same boundary, a few points per call (known finding)
+                add("boolbdry", node, [], [], N=0, api="dom.n", set_volume=True, small_n=rng.choice([2, 10]), calls=ctx.scale(800, 4000))
+            break
     # 9. grids of every primitive, primitive boundary and the polygon: extreme aspect ratios / sizes, n from 1 to 1000
     for i in range(ctx.scale(70, 700)):
         n = rng.choice([1, 2, 3, 5, 10, 30, 100, 100, 400, 1000])
@@ -1492,7 +1528,14 @@ def run_union(tp, rep, case, lines, posts):
     Proxy = build_proxy_class(tp)
     log = []
     from torchphysics.problem.domains.domainoperations.union import UnionDomain
-    pdom = UnionDomain(Proxy(build_tp(a, tp), log, "A"), Proxy(build_tp(b, tp), log, "B"), disjoint=bool(node.flags.get("disjoint")))
+    def operand(x):
+        # an operand whose volume() is only an estimate (cut / intersection) gets its exact measure with set_volume, as the
+        # library's warning recommends (feature crossing: union mixture x user-set operand volume)
+        o = build_tp(x, tp)
+        if case.get("setvol_operands") and x.kind in ("cut", "inter"):
+            o.set_volume(shp(x, {}).area)
+        return o
+    pdom = UnionDomain(Proxy(operand(a), log, "A"), Proxy(operand(b), log, "B"), disjoint=bool(node.flags.get("disjoint")))
     n = case["n_small"]
     torch.manual_seed(case["seed"])
     with Tape() as tape:
@@ -1532,7 +1575,7 @@ def run_union(tp, rep, case, lines, posts):
     else:
         rep.count("union:choice-not-applicable")
     # ---- laws on a big sample
-    dom = UnionDomain(build_tp(a, tp), build_tp(b, tp), disjoint=bool(node.flags.get("disjoint")))   # geomgen reports: not exported from tp.domains
+    dom = UnionDomain(operand(a), operand(b), disjoint=bool(node.flags.get("disjoint")))   # geomgen reports: not exported from tp.domains
     torch.manual_seed(case["seed"] + 1)
     Xs = sample_big(tp, dom, node, case, "dom.n", case["N"])
     g = 6 if dim == 2 else 12
@@ -2219,6 +2262,117 @@ def run_evalhist(tp, rep, case, lines, posts):
 _EVAL_RETRY = []
 
 
+def prim_bdry_dist(prim, P, env):
+    """distance of the points to the boundary line of a 2-D primitive (vectorised)"""
+    if prim.kind == "translate":
+        t = pf_np(prim.pfs[0], env)
+        return prim_bdry_dist(prim.kids[0], P - np.array([float(t[0]), float(t[1])]), env)
+    if prim.kind == "circle":
+        c, (r,) = pf_np(prim.pfs[0], env), pf_np(prim.pfs[1], env)
+        return np.abs(np.sqrt(((P - np.array(c)) ** 2).sum(1)) - r)
+    o, c1, c2 = [np.array(pf_np(p, env), dtype=float) for p in prim.pfs]
+    V = np.array([o, c1, c1 + c2 - o, c2]) if prim.kind == "par" else np.array([o, c1, c2])
+    E = np.roll(V, -1, axis=0) - V
+    best = np.full(len(P), np.inf)
+    for e in range(len(V)):
+        q = P - V[e]
+        t = np.clip((q @ E[e]) / (E[e] @ E[e]), 0, 1)
+        best = np.minimum(best, np.sqrt(((q - t[:, None] * E[e]) ** 2).sum(1)))
+    return best
+
+
+def _boolbdry_small(tp, rep, case, node, inner, a, b, bd, line, V, env):
+    """many calls with a small n: share of the arc of operand a (known finding: the alternate-and-truncate loop favours it)"""
+    n, calls = case["small_n"], case["calls"]
+    shift = np.array([float(x) for x in pf_np(node.pfs[0], env)]) if node.kind == "translate" else np.zeros(2)
+    cnt = tot = 0
+    for _ in range(calls):
+        P = bd.sample_random_uniform(n=n).as_tensor.double().numpy() - shift
+        cnt += int((prim_bdry_dist(a, P, env) < prim_bdry_dist(b, P, env)).sum()); tot += len(P)
+    A_line = shp(a, env).boundary
+    if node.kind == "translate":
+        from shapely import affinity
+        A_line = affinity.translate(A_line, float(shift[0]), float(shift[1]))
+    pa = line.intersection(A_line.buffer(1e-7 * max(1.0, V))).length / V
+    rep.count("chi2-tests")
+    v = chi2_decide([cnt, tot - cnt], [pa, 1 - pa], ["arc of operand a", "arc of operand b"])
+    if v["ok"]:
+        rep.count("boolbdry-small-n:arc shares fit")
+        return
+    fail_law(rep, case, f"boundary of {node.tokens()} sampled with n={n} per call ({calls} calls, exact measure set with set_volume): the arc of operand a "
+             f"holds {cnt / tot:.3f} of the samples, its length share is {pa:.3f} (chi-square {v['stat']} > {v['bound']})", {}, v,
+             finding="boolean_boundary_small_n_bias" if cnt / tot > pa else None)
+
+
+def run_boolbdry(tp, rep, case):
+    """boundary of a union / cut / intersection of two overlapping (or disjoint / contained) 2-D primitives, optionally under a
+    translation; the exact measure of the boundary is set with set_volume where the library asks for it (n points, overlapping
+    operands); judged against the arclength shares of (arc of operand a / of operand b) x grid cells, computed with Shapely"""
+    import torch
+    from shapely.geometry import box
+    node = geomgen.from_json(case["dom"])                 # the SOLID expression; its boundary is sampled
+    inner = node.kids[0] if node.kind == "translate" else node
+    a, b = inner.kids
+    env = {}
+    solid = shp(node, env)
+    line = solid.boundary
+    V = line.length
+    dom = build_tp(node, tp)
+    bd = dom.boundary
+    if case["set_volume"]:
+        bd.set_volume(V)
+    N = case["N"]
+    torch.manual_seed(case["seed"])
+    if case.get("small_n"):
+        return _boolbdry_small(tp, rep, case, node, inner, a, b, bd, line, V, env)
+    if case["api"] == "dom.d":
+        res = common.call_with_timeout(TIMEOUT, lambda: bd.sample_random_uniform(d=N / V))
+    elif case["api"] == "smp.n":
+        res = common.call_with_timeout(TIMEOUT, lambda: tp.samplers.RandomUniformSampler(bd, n_points=N).sample_points())
+    else:
+        res = common.call_with_timeout(TIMEOUT, lambda: bd.sample_random_uniform(n=N))
+    X = res.coordinates[nm("x")].detach().double().numpy()
+    if case["api"] != "dom.d" and len(X) != N:
+        rep.fail(f"boundary of {node.tokens()}: {len(X)} rows returned for n={N}", inp_of(case))
+        return
+    # cells: which operand's boundary the point lies on  x  4x4 grid of the bounding box
+    if node.kind == "translate":
+        t = pf_np(node.pfs[0], env)
+        from shapely import affinity
+        A_line = affinity.translate(shp(a, env).boundary, t[0], t[1]); B_line = affinity.translate(shp(b, env).boundary, t[0], t[1])
+        shift = np.array([float(t[0]), float(t[1])])
+    else:
+        A_line, B_line = shp(a, env).boundary, shp(b, env).boundary
+        shift = np.zeros(2)
+    eps = 1e-7 * max(1.0, V)
+    on_a = line.intersection(A_line.buffer(eps))
+    on_b = line.intersection(B_line.buffer(eps)).difference(A_line.buffer(eps))
+    g = 4
+    cells, bounds = grid_cells(solid, 2, g)
+    da, db = prim_bdry_dist(a, X - shift, env), prim_bdry_dist(b, X - shift, env)
+    which = (db < da).astype(np.int64)
+    off = int((np.minimum(da, db) > 1e-4 * max(1.0, V)).sum())
+    if off:
+        rep.fail(f"boundary of {node.tokens()}: {off} of {len(X)} sampled points do not lie on the boundary of an operand", inp_of(case))
+        return
+    idx = which * (g * g) + grid_index(X, bounds, 2, g)
+    probs = [on_a.intersection(c).length / V for c in cells] + [on_b.intersection(c).length / V for c in cells]
+    tot = sum(probs)
+    probs = [p / tot for p in probs]
+    labels = [f"arc of operand {'a' if w == 0 else 'b'} in grid cell {j}" for w in (0, 1) for j in range(g * g)]
+    counts = np.bincount(idx, minlength=len(probs)).tolist()
+    rep.count("chi2-tests")
+    rep.count("boolbdry:" + node.kind + ("(translated " + inner.kind + ")" if node.kind == "translate" else "") + ":" + case["api"] + (":set_volume" if case["set_volume"] else ""))
+    v = chi2_decide(counts, probs, labels)
+    if not v["ok"]:
+        w = v["worst"]
+        share_a = sum(counts[:g * g]) / max(1, len(X))
+        fail_law(rep, case, f"boundary of {node.tokens()} ({case['api']}, " + ("exact measure set with set_volume" if case["set_volume"] else "no set_volume") +
+                 f"): not uniform in arclength: '{w['cell']}' received {w['observed']} of {v['N']} points, its length share gives {w['expected']} "
+                 f"(chi-square {v['stat']} > {v['bound']}); the arc of operand a holds {share_a:.3f} of the samples, its length share is {sum(probs[:g * g]):.3f}",
+                 {}, v, extra=dict(counts=counts, probabilities=probs))
+
+
 def stat_bound(m, p):
     """Bernstein bound (level ALPHA) for the deviation of a Binomial(m, p) count from m p: the random top-up points of a grid"""
     if m <= 0:
@@ -2484,7 +2638,7 @@ def run(ctx, rep, cases=None):
     for cs in cases:
         node = geomgen.from_json(cs["dom"]) if cs.get("dom") else Node("par", "x", [PF([geomgen.c(0), geomgen.c(0)])] * 3)
         kind = cs["kind"]
-        rep.count("kind:" + kind + (":" + cs["flavour"] if "flavour" in cs else "") + (":set_bounding_box" if cs.get("setbox") else ""))
+        rep.count("kind:" + kind + (":" + cs["flavour"] if "flavour" in cs else "") + (":set_bounding_box" if cs.get("setbox") else "") + (":set_volume-on-operand" if cs.get("setvol_operands") else ""))
         if "wrap" in cs:
             rep.count("prod-first-factor:" + cs["wrap"])
         for kd in set(node.kinds()):
@@ -2521,6 +2675,8 @@ def run(ctx, rep, cases=None):
                 run_gauss(tp, rep, cs, my_lines, posts)
             elif kind == "grid":
                 run_grid(tp, rep, cs, my_lines, posts)
+            elif kind == "boolbdry":
+                run_boolbdry(tp, rep, cs)
             elif kind == "evalhist":
                 run_evalhist(tp, rep, cs, my_lines, posts)
             elif kind == "gridx":
